@@ -39,7 +39,8 @@ RULE = (
     "or raise, any k) the in-memory model is unchanged: same object graph (nodes, values, initializer Values by "
     "identity), same serialisation, every const_value IS the original tensor object, still valid, yields the original "
     "bytes, and external tensors' backing bytes are intact. A fault-free run must not raise. Non-trivial = >=2 "
-    "initializers above the 256-byte threshold and fault index k>=2; distinct by (description hash, k, fault mode)."
+    "initializers above the 256-byte threshold and fault index k>=2; distinct by (description hash, k, fault mode). "
+    "Regions of committed known findings (REGIONS) are excluded by construction and counted."
 )
 ASSUMPTIONS = [
     "onnx_ir.serde.serialize_model is used to fingerprint the in-memory model before/after (it is also what save uses)",
@@ -50,14 +51,16 @@ ASSUMPTIONS = [
     "an injected OSError at a file method is a legal behaviour of the file object (any I/O call may fail)",
 ]
 EXHAUSTIVE = False  # exhaustive over k per model, not over models
-FLOOR = {"quick": 1500, "thorough": 20000}
+FLOOR = {"quick": 1000, "thorough": 100000}
 TIMEOUT = {"quick": 600, "thorough": 3 * 3600}
 
 THRESH = 256  # ir.save(size_threshold_bytes=256): externalised iff nbytes > 256
 ERR_NAMES = ["ENOSPC", "EIO", "EACCES"]
 MAX_EVENTS = 400  # enumeration guard per model (never reached by the generator's sizes; counted if hit)
 
-# Named regions of recorded/suspected findings.  Names put into EXCLUDE are not generated (redirected + counted).
+# Named regions (see REGIONS below) of findings on the unchanged tree.  A region is not generated (the draw is redirected
+# and counted with col.exclude) when it is named here - development: VERIF_C20_EXCLUDE=a,b - or when a committed
+# known finding of this property names it in its "region" field (run-time consultation in excluded_regions()).
 EXCLUDE: set = set(filter(None, os.environ.get("VERIF_C20_EXCLUDE", "").split(",")))
 
 
@@ -101,7 +104,6 @@ SUB_DTYPES = ["INT4", "UINT4", "FLOAT4E2M1", "INT2", "UINT2"]
 TYPED_FIELD = {"FLOAT": "float_data", "DOUBLE": "double_data", "INT32": "int32_data", "INT64": "int64_data",
                "UINT64": "uint64_data", "INT8": "int32_data", "UINT8": "int32_data", "INT16": "int32_data",
                "UINT16": "int32_data", "BOOL": "int32_data", "UINT32": "uint64_data"}
-BITS = {n: (0 if n == "STRING" else None) for n in ["STRING"]}
 
 
 def bits_of(dt):
@@ -193,8 +195,8 @@ def build(spec, root):
     env.root = root
     env.dest_dir = os.path.join(root, "out")
     env.src_dir = os.path.join(root, "src")
-    os.makedirs(env.dest_dir)
-    os.makedirs(env.src_dir)
+    os.makedirs(env.dest_dir, exist_ok=True)
+    os.makedirs(env.src_dir, exist_ok=True)
     name = spec["dest"]["name"]
     env.model_abspath = os.path.join(env.dest_dir, name)
     env.data_name = name + ".data"
@@ -273,6 +275,9 @@ def build(spec, root):
                 off = ext_offsets.get(path, 0) + int(init["ext"].get("gap", 0))
                 mode = "r+b" if os.path.exists(path) else "wb"
                 with open(path, mode) as f:
+                    f.seek(0, 2)
+                    if f.tell() < off:  # make the gap real even when nothing is written after it
+                        f.write(b"\0" * (off - f.tell()))
                     f.seek(off)
                     f.write(raw)
                 ext_offsets[path] = off + len(raw)
@@ -282,7 +287,7 @@ def build(spec, root):
                     tensor.numpy()
             else:
                 raise ValueError(kind)
-        if kind != "uninit" and init.get("tdoc"):
+        if init.get("tdoc") and kind in ("np", "np_noncontig", "lazy", "packed", "string"):
             tensor.doc_string = "tensor doc " + vname
         kw = {}
         if init.get("typed") or kind == "uninit":
@@ -532,6 +537,41 @@ def read_tensor_bytes(t):
     return bytes(t.tobytes())
 
 
+def unreadable_without_save(spec, rec, exc):
+    """True if the same tensor of a freshly built twin (no save at all) fails to read in the same way."""
+    import onnx_ir as ir
+
+    idx = [i for i, x in enumerate(spec["inits"]) if x is rec["init"]]
+    if not idx:
+        return False
+    with scratch() as twin_root:
+        twin = build(spec, twin_root)
+        t = twin.inits[idx[0]]["tensor"]
+        try:
+            read_tensor_bytes(t)
+            return False
+        except Exception as e2:
+            return type(e2) is type(exc)
+        finally:
+            for r in twin.inits:
+                if isinstance(r["tensor"], ir.ExternalTensor):
+                    r["tensor"].release()
+
+
+def wipe(root):
+    """Empty the scratch dir between runs; the two standard sub-directories are kept (rmdir is slow), only emptied."""
+    for entry in os.listdir(root):
+        p = os.path.join(root, entry)
+        if entry in ("out", "src") and os.path.isdir(p) and not os.path.islink(p):
+            for sub in os.listdir(p):
+                q = os.path.join(p, sub)
+                shutil.rmtree(q) if os.path.isdir(q) and not os.path.islink(q) else os.remove(q)
+        elif os.path.isdir(p) and not os.path.islink(p):
+            shutil.rmtree(p)
+        else:
+            os.remove(p)
+
+
 def run_once(spec, k, mode, errno_name, root):
     """Rebuild everything in `root`, run the save (with the fault at call k if k>0), evaluate the oracle.
     Returns (verdicts, info)."""
@@ -539,9 +579,7 @@ def run_once(spec, k, mode, errno_name, root):
     import onnx_ir as ir
     from onnxscript._framework_apis import torch_2_5
 
-    for entry in os.listdir(root):
-        p = os.path.join(root, entry)
-        shutil.rmtree(p) if os.path.isdir(p) and not os.path.islink(p) else os.remove(p)
+    wipe(root)
     env = build(spec, root)
     model = env.model
     verdicts = []
@@ -599,9 +637,9 @@ def run_once(spec, k, mode, errno_name, root):
         elif not isinstance(exc, ValueError) or isinstance(exc, OSError):
             if not fs.fired:
                 bad(f"uninit:{where}:wrong-exception:{type(exc).__name__}@{_exc_site(exc)}", repr(exc)[:300])
-        if fs.log or fs.audit_log:
+        if exc is not None and (fs.log or fs.audit_log):
             bad(f"uninit:{where}:fs-call-before-refusal", f"{fs.brief(8)} audit={fs.audit_log[:4]}")
-        if snapshot_dir(root) != dir_before:
+        elif exc is not None and snapshot_dir(root) != dir_before:
             bad(f"uninit:{where}:directory-changed", "files differ after the refused save")
     elif exc is not None and not fs.fired:
         # nothing was injected (fault-free run, or the call never reached call k): the save must succeed
@@ -618,6 +656,8 @@ def run_once(spec, k, mode, errno_name, root):
             continue
         if t is None:
             continue
+        if isinstance(t, ir.ExternalTensor) and len(r["raw"]) == 0:
+            continue  # no data to lose (and zero-size ExternalTensor.tobytes() asserts with or without a save)
         if isinstance(t, ir.ExternalTensor):
             if not t.valid():
                 bad("after:tensor-invalidated", f"{tag} file={init['ext']['file']} k={k} exc={info['exc']}")
@@ -635,7 +675,10 @@ def run_once(spec, k, mode, errno_name, root):
         try:
             got = read_tensor_bytes(t)
         except Exception as e:
-            bad(f"after:tensor-unreadable:{type(e).__name__}", f"{tag}: {e!r}"[:300])
+            if unreadable_without_save(spec, r, e):
+                info["classes"].append("obs:tensor-unreadable-with-or-without-save")
+            else:
+                bad(f"after:tensor-unreadable:{type(e).__name__}", f"{tag}: {e!r}"[:300])
             continue
         if got != r["raw"]:
             bad("after:tensor-bytes-changed", f"{tag} k={k} exc={info['exc']}")
@@ -732,6 +775,8 @@ def check_saved(env, proto_before, n_expected_external, bad, info):
             if str(t2.dtype) != str(DT(init["dtype"])[0]) or list(t2.shape.numpy()) != list(init["shape"]):
                 bad("load:dtype-shape-differ", f"{tag}: loaded {t2.dtype} {t2.shape}")
                 continue
+            if isinstance(t2, ir.ExternalTensor) and len(r["raw"]) == 0:
+                continue  # zero-size ExternalTensor.tobytes() asserts by itself; dtype/shape were compared above
             try:
                 got = read_tensor_bytes(t2)
             except Exception as e:
@@ -792,7 +837,20 @@ REGIONS = {
 }
 
 
-def apply_excludes(spec, col=None):
+def excluded_regions(shard_spec):
+    """EXCLUDE (development) + the regions of the committed known findings the runner told us about."""
+    ex = set(EXCLUDE)
+    ids = set(shard_spec.get("known_ids") or [])
+    if ids:
+        from vf import runner
+
+        for e in runner.load_known(ID):
+            if e.get("status") == "known" and e.get("id") in ids and e.get("region") in REGIONS:
+                ex.add(e["region"])
+    return ex
+
+
+def apply_excludes(spec, EXCLUDE, col=None):
     """Redirect a drawn description out of the excluded regions (by construction, counted)."""
     if not EXCLUDE:
         return spec
@@ -848,7 +906,8 @@ def shape_for(size_class, dtype, draw_int):
 
 @st.composite
 def specs(draw):
-    di = lambda lo, hi: draw(st.integers(lo, hi))  # noqa: E731
+    di = lambda lo, hi: draw(st.integers(lo, hi))  # noqa: E731  (boundary-biased: good for sizes, bad for coin flips)
+    chance = lambda num, den: draw(st.sampled_from(range(den))) < num  # noqa: E731  (uniform)
     n = draw(st.sampled_from([0, 1, 2, 2, 3, 3, 4, 4, 5, 6, 7]))
     names = draw(st.permutations(NAMES))[:n + 1]
     inits = []
@@ -856,17 +915,17 @@ def specs(draw):
     for i in range(n):
         dtype = draw(st.sampled_from(BYTE_DTYPES * 2 + SUB_DTYPES * 2 + ["STRING"] + ["FLOAT", "FLOAT", "INT64", "FLOAT16"]))
         sc = draw(st.sampled_from(SIZE_CLASSES))
-        if not huge_used and dtype in BYTE_DTYPES and di(0, 59) == 0:
+        if not huge_used and dtype in BYTE_DTYPES and chance(1, 90):
             sc, huge_used = "huge", True
         init = {"name": names[i], "dtype": dtype, "seed": di(0, 2 ** 31), "where": draw(st.sampled_from(
-            ["main"] * 6 + ["then", "then", "else", "inner"])), "typed": draw(st.booleans()), "vmeta": di(0, 5) == 0,
-            "tdoc": di(0, 9) == 0}
+            ["main"] * 6 + ["then", "then", "else", "inner"])), "typed": draw(st.booleans()), "vmeta": chance(1, 6),
+            "tdoc": chance(1, 10)}
         if dtype == "STRING":
             init["kind"] = "string"
             cnt = di(0, 6)
             init["shape"] = [[], [cnt], [0]][di(0, 2)] if cnt else [0]
             init["strlen"] = di(0, 8)
-            if di(0, 7) == 0:  # region string_initializer_above_threshold
+            if chance(1, 8):  # region string_initializer_above_threshold
                 init["shape"], init["strlen"] = [di(3, 9)], di(90, 140)
         else:
             init["shape"] = shape_for(sc, dtype, di)
@@ -887,21 +946,21 @@ def specs(draw):
                                "gap": draw(st.sampled_from([0, 0, 16, 100, 4096])), "touched": draw(st.booleans())}
                 init["tdoc"] = False
         if init["where"] == "main":
-            init["as_input"] = di(0, 4) == 0
+            init["as_input"] = chance(1, 5)
         inits.append(init)
-    u = di(0, 11)
+    u = draw(st.sampled_from(range(20)))
     if u == 0 or (u == 1 and n):  # uninitialised initializer (u==0: extra one; u==1: among others, possibly in a subgraph)
         inits.insert(di(0, len(inits)), {"name": names[n], "dtype": draw(st.sampled_from(["FLOAT", "INT64", "FLOAT16"])),
                                          "shape": [di(1, 400)], "kind": "uninit", "seed": 0, "typed": True,
-                                         "where": "main" if u == 0 or di(0, 2) else draw(st.sampled_from(["then", "else", "inner"]))})
+                                         "where": "main" if u == 0 or chance(1, 3) else draw(st.sampled_from(["then", "else", "inner"]))})
     spec = {
         "inits": inits,
-        "with_if": draw(st.booleans()), "nested_if": di(0, 3) == 0, "const_attr": di(0, 3) == 0,
+        "with_if": draw(st.booleans()), "nested_if": chance(1, 4), "const_attr": chance(1, 4),
         "meta": draw(st.booleans()), "ir_version": draw(st.sampled_from([8, 9, 10, 10, 11])),
         "dest": {"form": draw(st.sampled_from(["abs_str", "abs_str", "abs_path", "rel_dir", "rel_dir_path", "bare", "rel_up"])),
                  "name": draw(st.sampled_from(DEST_NAMES))},
         "pre": {"model": draw(st.booleans()), "data": draw(st.booleans()), "other": draw(st.booleans())},
-        "verbose": di(0, 2) == 0, "hide_fileno": draw(st.booleans()), "errno0": di(0, 2),
+        "verbose": chance(1, 3), "hide_fileno": draw(st.booleans()), "errno0": draw(st.sampled_from([0, 1, 2])),
     }
     return spec
 
@@ -991,8 +1050,10 @@ def run_shard(spec_):
     col.extra.update({"models": 0, "fault_points_total": 0, "leaked_handles": 0,
                       "runs_returned_despite_fault": 0, "models_truncated_enumeration": 0})
 
+    excluded = excluded_regions(spec_)
+
     def body(spec):
-        spec = apply_excludes(spec, col)
+        spec = apply_excludes(spec, excluded, col)
         h = spec_hash(spec)
         mcls, above = model_classes(spec)
         col.extra["models"] += 1
@@ -1037,7 +1098,7 @@ def run_shard(spec_):
 
 
 def plan(tier, seed, budget):
-    n = int((640 if tier == "quick" else 16000) * budget)
+    n = int((640 if tier == "quick" else 80000) * budget)
     shards = 16 if tier == "quick" else 64
     return [{"n": max(1, n // shards)} for _ in range(shards)]
 
